@@ -33,6 +33,7 @@ func cmdPubSub(args []string) {
 	nsub := fs.Int("subs", 4, "subscribers")
 	npub := fs.Int("pubs", 3, "publishers")
 	stall := fs.Bool("stall", false, "one consumer stops reading (stalled consumer)")
+	lastw := fs.Int("lastwatcher", 0, "mode: on this many keys per run, a watcher subscribes while a churner keeps being the last watcher that leaves")
 	_ = fs.Parse(args)
 	o, err := os.Create(*out)
 	if err != nil {
@@ -45,6 +46,9 @@ func cmdPubSub(args []string) {
 		mu.Lock()
 		seq++
 		m["i"] = seq
+		if _, ok := m["key"]; !ok {
+			m["key"] = ""
+		}
 		b, _ := json.Marshal(m)
 		_, _ = w.Write(b)
 		_ = w.WriteByte('\n')
@@ -53,7 +57,10 @@ func cmdPubSub(args []string) {
 	rng := rand.New(rand.NewSource(*seed))
 	ctx := context.Background()
 	actor := func(i int) time.ActorID { var a time.ActorID; a[11] = byte(i); return a }
-	for run := 1; run <= *runs; run++ {
+	for run := 1; run <= *runs && *lastw > 0; run++ {
+		lastWatcherRun(run, *lastw, rng, emit)
+	}
+	for run := 1; run <= *runs && *lastw == 0; run++ {
 		ps := pubsub.New()
 		key := types.DocRefKey{ProjectID: "p", DocID: types.ID(fmt.Sprintf("d%d", run))}
 		stalled := ""
@@ -191,4 +198,98 @@ func cmdPubSub(args []string) {
 	_ = w.Flush()
 	_ = o.Close()
 	fmt.Printf("executed=%d\n", *runs)
+}
+
+
+// lastWatcherRun: on every key a churner subscribes and unsubscribes in a tight
+// loop (so it keeps being the LAST watcher that leaves, which closes the key's
+// batch publisher) while one watcher subscribes once at a random moment. The
+// churner stops, one event is published, and the watcher must get it (or a
+// closed stream). Only the watcher's calls are logged: a subscriber that has
+// started to unsubscribe is outside Delivered anyway.
+func lastWatcherRun(run, nkeys int, rng *rand.Rand, emit func(map[string]any)) {
+	ctx := context.Background()
+	ps := pubsub.New()
+	actor := func(i int) time.ActorID { var a time.ActorID; a[10] = byte(i >> 8); a[11] = byte(i); return a }
+	emit(map[string]any{"ev": "reset", "run": run, "subs": nkeys, "pubs": nkeys, "stalled": ""})
+	spins := make([]int, nkeys)
+	for k := range spins {
+		spins[k] = rng.Intn(3000)
+	}
+	type cell struct {
+		key  types.DocRefKey
+		sub  *pubsub.DocSubscription
+		done chan struct{}
+	}
+	cells := make([]*cell, nkeys)
+	var wg sync.WaitGroup
+	for k := 0; k < nkeys; k++ {
+		k := k
+		kname := fmt.Sprintf("k%d", k+1)
+		c := &cell{key: types.DocRefKey{ProjectID: "p", DocID: types.ID(fmt.Sprintf("d%d-%d", run, k))}}
+		cells[k] = c
+		var stop atomic.Bool
+		churned := make(chan struct{})
+		go func() {
+			defer close(churned)
+			for i := 0; !stop.Load() || i < 3; i++ {
+				sub, _, err := ps.Subscribe(ctx, actor(1000+k), c.key, 0)
+				if err == nil {
+					ps.Unsubscribe(ctx, c.key, sub)
+				}
+				if stop.Load() {
+					i++
+				} else {
+					i = 0
+				}
+			}
+		}()
+		wg.Add(1)
+		go func() {
+			defer wg.Done()
+			for i := 0; i < spins[k]; i++ {
+				_ = i * i
+			}
+			name := kname + ".w"
+			emit(map[string]any{"ev": "sub.start", "run": run, "s": name, "key": kname})
+			sub, _, err := ps.Subscribe(ctx, actor(2000+k), c.key, 0)
+			emit(map[string]any{"ev": "sub.end", "run": run, "s": name, "ok": err == nil, "key": kname})
+			stop.Store(true)
+			<-churned
+			if err != nil {
+				return
+			}
+			c.sub = sub
+			c.done = make(chan struct{})
+			go func() {
+				defer close(c.done)
+				for e := range sub.Events() {
+					emit(map[string]any{"ev": "recv", "run": run, "s": name, "from": fmt.Sprintf("%s.p", kname), "type": string(e.Type), "key": kname})
+				}
+				emit(map[string]any{"ev": "closed", "run": run, "s": name, "key": kname})
+			}()
+		}()
+	}
+	wg.Wait()
+	for k, c := range cells {
+		kname := fmt.Sprintf("k%d", k+1)
+		emit(map[string]any{"ev": "pub.start", "run": run, "p": kname + ".p", "k": 0, "key": kname})
+		ps.Publish(ctx, actor(3000+k), events.DocEvent{Type: events.DocChanged, Actor: actor(3000 + k), Key: c.key})
+		emit(map[string]any{"ev": "pub.end", "run": run, "p": kname + ".p", "k": 0, "key": kname})
+	}
+	gotime.Sleep(350 * gotime.Millisecond)
+	emit(map[string]any{"ev": "quiet", "run": run})
+	ids := 0
+	for k, c := range cells {
+		if c.sub == nil {
+			continue
+		}
+		name := fmt.Sprintf("k%d.w", k+1)
+		emit(map[string]any{"ev": "unsub.start", "run": run, "s": name})
+		ps.Unsubscribe(ctx, c.key, c.sub)
+		emit(map[string]any{"ev": "unsub.end", "run": run, "s": name})
+		<-c.done
+		ids += len(ps.ClientIDs(c.key))
+	}
+	emit(map[string]any{"ev": "end", "run": run, "ids": ids, "panics": 0})
 }
